@@ -136,6 +136,10 @@ func genC18(g *Gen, idx int) *Plan {
 	default:
 		cfg.Sched = simrt.SchedCfg{Focus: []string{"transactions/retry_transaction.go", "transactions/transaction_base.go", "transactions/timed_transaction.go"}, FocusDensity: 0.6}
 	}
+	if g.Bool(0.5) {
+		cfg.Sched.StallProb = 0.02 + g.Float()*0.2
+		cfg.Sched.MaxStall = 2 * time.Second
+	}
 	delays := []int64{0, 1, 1000, 1e6, 1e9}
 	tx := &TXPlan{Kind: []string{"retry", "timed"}[g.Intn(2)], DelayNs: delays[g.Intn(len(delays))], Count: uint(g.Intn(4))}
 	if g.Bool(0.15) {
